@@ -1,6 +1,9 @@
 """C12 — saving to MIDI and loading back returns the same music."""
+import ast
 import os
+import re
 import gens as G
+import h3midi_util as H
 import pyimpl as P
 from oracle_util import *  # noqa
 from protocol import from_real, pm
@@ -38,8 +41,10 @@ CLAUSES = [
     ('SAVE SIDE COMPOSED WITH LOAD SIDE (audit round 3 M5): the translated sequences_save, then MidiFile.save up to the write (translated to_mido_track, its literals read as mido objects: Model/MidoCodec.lean), then ASSUMED about mido only that a written file is read back with the same ticks_per_beat and, per track, the same messages as far as parse_mido_message reads them followed by one end_of_track (ReadBack; replayed on 300 random in-domain files), then the translated sequences_load (open, parse_mido, parse_mido_track, parse_mido_message, convert) equals C13.saveLoad — for relative views whose key signatures carry one of the 15 keys and that hold no note-on of velocity 0; the sounding and notes theorems are restated about that pipeline. Both conditions are needed and replayed through real files: a KEY_SIGNATURE message whose key is None makes sequences_save raise AttributeError; a note-on of velocity 0 is written as note_on velocity=0 and loaded as a note-off, so the note is lost (the property says velocities 1..127)',
      ["SCoda.C12c.parse_encode_saved", "SCoda.C12c.save_then_load", "SCoda.C12c.save_load_sounding_gen", "SCoda.C12c.save_load_notes_gen", "SCoda.C12c.save_raises_on_key_None", "SCoda.C12c.save_succeeds_statement_false", "SCoda.C12c.save_load_vel0_statement_false"]),
 ]
-RULE = ("lists of 1-3 integer-tick well-formed single-channel sequences (<=6 notes, velocities 1..127, all 15 keys, "
-        "signatures at arbitrary ticks on distinct ticks, leading rests); real file round trip through mido in a temp dir; "
+RULE = ("lists of 1-3 integer-tick well-formed sequences (<=6 notes, one or three channels, velocities 1..127, all 15 keys, signatures at "
+        "arbitrary ticks — also several of a kind on one tick: every track starting with the same / its own time signature at tick 0 —, "
+        "control and program changes (value 0 included) between waits and notes, zero-length notes, leading rests); real file round trip "
+        "through mido in a temp dir by sequences_save/sequences_load, Sequence.save, Composition.save and Composition.from_midi_file; "
         "non-trivial = at least two sequences or a signature event")
 ASSUMPTIONS = ["mido's writer/reader is assumed to carry (type, delta, fields) unchanged",
                "models: SCoda.toMido, SCoda.convert (Model/Midi.lean), tied by correspondence on the same inputs"]
@@ -107,14 +112,32 @@ def o_save_load(inp):
             tr, _ = rel_timed(r)
             if wf_violations(tr) or any(on >= off for (_, _, on, off, _) in notes_of(tr)) or cross_channel_overlap([r]):
                 return [("~skip:outside-domain", "")]
+    route = inp.get("route") or "sequences_save"
+    if route == "Sequence.save" and len(seqs) != 1:
+        return [("~skip:route-needs-one-sequence", "")]
+    if route in ("Composition.save", "Composition.from_midi_file") and not composition_safe(rels):
+        return [("~skip:route-outside-its-class", "")]
     fd, path = tempfile.mkstemp(suffix=".mid", dir=SCRATCH)
     os.close(fd)
     try:
         try:
-            Sequence.sequences_save(seqs, path)
-            loaded = Sequence.sequences_load(file_path=path)
+            # the same round trip through the other public entry points (audit 3, table C12)
+            if route == "Sequence.save":
+                seqs[0].save(path)
+                loaded = Sequence.sequences_load(file_path=path)
+            elif route == "Composition.save":
+                from scoda.elements.composition import Composition
+                Composition.from_sequences(seqs, 0).save(path)
+                loaded = Sequence.sequences_load(file_path=path)
+            elif route == "Composition.from_midi_file":
+                from scoda.elements.composition import Composition
+                Sequence.sequences_save(seqs, path)
+                loaded = Composition.from_midi_file(path, [[j] for j in range(len(seqs))], list(range(len(seqs))), 0).to_sequences()
+            else:
+                Sequence.sequences_save(seqs, path)
+                loaded = Sequence.sequences_load(file_path=path)
         except Exception as e:
-            return [("raises", f"{type(e).__name__}: {e}")]
+            return [("raises", f"{type(e).__name__}: {e} (route {route})")]
     finally:
         if os.path.exists(path):
             os.unlink(path)
@@ -139,6 +162,15 @@ def o_save_load(inp):
     for ty, name in ((TIMESIG, "time"), (KEYSIG, "key")):
         ticks = [t for t, m in allsig if m[TY] == ty]
         if len(ticks) != len(set(ticks)):
+            # several saved signatures of this kind on one tick — the normal case "every saved track starts with 4/4 at tick 0"
+            # (audit 3, O10).  The text: "the signature in force at every tick is the one that was saved": the value in force from such
+            # a tick on must be one of those saved there (THE one when they agree), and nothing may change on a tick without an event.
+            given = [(t, (m[NUM], m[DEN]) if ty == TIMESIG else m[KEY]) for t, m in allsig if m[TY] == ty]
+            if ty == TIMESIG and 0 not in ticks:
+                given.append((0, (4, 4)))
+            bad = H.in_force_violation(given, sig_in_force(tm, ty, None))
+            if bad:
+                fails.append((name + "-sig", f"signature in force (several saved on one tick): {bad}; loaded {sig_in_force(tm, ty, None)}"))
             continue
         # what must be in force: the saved signatures, with 4/4 from tick 0 when nothing is saved there.
         # The loaded meta sequence is read with *no* default: it has to say 4/4 itself.
@@ -158,8 +190,68 @@ def zero_length_saved(rels):
     return False
 
 
+def composition_safe(rels):
+    """the class on which building bars is the identity on notes (so that the Composition routes are the same round trip): one channel,
+    only a 4/4 at tick 0 (on the first sequence) as signature, every note starts on a multiple of 12, lasts 12, 24 or 36 ticks (values of
+    the library's default note-value list — building bars re-quantises every other length, documented behaviour recorded as D26 under
+    C09; a half note, 48, is not in that list) and ends inside its 4/4 bar; no other events"""
+    for i, r in enumerate(rels):
+        tr, _ = rel_timed(r)
+        for t, m in tr:
+            if m[TY] == TIMESIG and not (i == 0 and t == 0 and (m[NUM], m[DEN]) == (4, 4)):
+                return False
+            if m[TY] not in (ON, OFF, TIMESIG) or (m[TY] in (ON, OFF) and m[CH] != 0):
+                return False
+        for (_, _, on, off, _) in notes_of(tr):
+            if on % 12 or (off - on) not in (12, 24, 36) or on // 96 != (off - 1) // 96:
+                return False
+    tr0, _ = rel_timed(rels[0]) if rels else ([], 0)
+    return any(m[TY] == TIMESIG for _, m in tr0)
+
+
+def fused_without_channels(rel):
+    """what D21 describes, computed from the saved list alone: the notes (pitch, onset, duration, velocity) one gets when every channel is
+    forgotten and the events are read in the order the sequence lists them — a note-on of a sounding pitch is swallowed, the note lasts
+    until as many note-offs have come as note-ons (nesting), its velocity is the first note-on's"""
+    tr, _ = rel_timed(rel)
+    depth, start, out = {}, {}, []
+    for t, m in tr:
+        if m[TY] == ON:
+            d = depth.get(m[NOTE], 0)
+            if d == 0:
+                start[m[NOTE]] = (t, m[VEL])
+            depth[m[NOTE]] = d + 1
+        elif m[TY] == OFF:
+            d = depth.get(m[NOTE], 0)
+            if d == 1:
+                on, v = start.pop(m[NOTE])
+                out.append((m[NOTE], on, t - on, v))
+            if d > 0:
+                depth[m[NOTE]] = d - 1
+    return sorted(out)
+
+
+NOTES_DETAIL = re.compile(r"^sequence (\d+): saved (\[.*\]), loaded (\[.*\])$")
+
+
+def failing_sequence(f):
+    """(index, saved notes, loaded notes) parsed from the detail of a 'notes' failure"""
+    m = NOTES_DETAIL.match(f["detail"])
+    if not m:
+        return None
+    try:
+        return int(m.group(1)), [tuple(x) for x in ast.literal_eval(m.group(2))], [tuple(x) for x in ast.literal_eval(m.group(3))]
+    except Exception:
+        return None
+
+
 D17B_EXAMPLE = {"rels": [[pm(ON, 0, None, note=60, vel=64), pm(OFF, 0, None, note=60), pm(WAIT, 0, 10), pm(ON, 0, None, note=60, vel=64),
                           pm(WAIT, 0, 10), pm(OFF, 0, None, note=60), pm(WAIT, 0, 4)]]}
+# D21, touching notes: it is the order in which the sequence LISTS the two events of the shared tick that decides, not the channels
+D21_TOUCH_EXAMPLE = {"rels": [[pm(ON, 1, None, note=60, vel=50), pm(WAIT, 0, 10), pm(ON, 0, None, note=60, vel=70), pm(OFF, 1, None, note=60),
+                               pm(WAIT, 0, 10), pm(OFF, 0, None, note=60)]]}
+D21_TOUCH_FINE = {"rels": [[pm(ON, 1, None, note=60, vel=50), pm(WAIT, 0, 10), pm(OFF, 1, None, note=60), pm(ON, 0, None, note=60, vel=70),
+                            pm(WAIT, 0, 10), pm(OFF, 0, None, note=60)]]}
 
 
 def setup(ctx):
@@ -167,16 +259,45 @@ def setup(ctx):
     SCRATCH = ctx.scratch
     ctx.oracle("save_load", o_save_load)
 
-    def kf_d21(f):
+    def explain(f):
+        """pitch -> finding that explains why the notes of that pitch came back different in the FAILING sequence (None: nothing does).
+        D17b: the sequence holds a zero-length note of that pitch (the channel is not in the file, so the pitch is the key).
+        D21: the pitch has two notes on different channels that overlap or touch, and what was loaded for that pitch is exactly the
+        fusion the finding describes (`fused_without_channels` of the saved list), no zero-length note involved."""
+        if f["clause"] != "notes" or f["input"].get("resave") is not None or str(f["input"].get("route")).startswith("Composition"):
+            return None             # (re-saved inputs and the Composition routes never hold such notes — outside the oracle's domain there)
+        got = failing_sequence(f)
         rels = [[tuple(m) for m in r] for r in f["input"]["rels"]]
-        if f["input"].get("resave") is not None:
-            return f["clause"] == "notes" and cross_channel_overlap(rels)       # content changed since: judged on the wider class
-        return f["clause"] == "notes" and cross_channel_overlap(rels) and breaks_without_channels(rels)
+        if got is None or not (0 <= got[0] < len(rels)):
+            return None
+        i, saved, loaded = got
+        r = rels[i]
+        tr, _ = rel_timed(r)
+        ns = notes_of(tr)
+        zero = {p for (_, p, on, off, _) in ns if on == off}
+        fused = fused_without_channels(r)
+        out = {}
+        for p in {x[0] for x in saved} | {x[0] for x in loaded}:
+            lp = sorted(x for x in loaded if x[0] == p)
+            if sorted(x for x in saved if x[0] == p) == lp:
+                continue
+            only_p = [m for m in r if m[TY] == WAIT or (m[TY] in (ON, OFF) and m[NOTE] == p)]
+            if p in zero:
+                out[p] = "D17b"
+            elif cross_channel_overlap([only_p]) and breaks_without_channels([only_p]) and lp == [x for x in fused if x[0] == p]:
+                out[p] = "D21"
+            else:
+                out[p] = None
+        return out
+
+    def kf_d21(f):
+        e = explain(f)
+        return bool(e) and all(v is not None for v in e.values()) and "D21" in e.values()
     ctx.kf_predicates["D21"] = kf_d21
 
     def kf_d17b(f):
-        # a saved sequence holds a zero-length note (note-on and note-off on one tick)
-        return f["clause"] == "notes" and zero_length_saved([[tuple(m) for m in r] for r in f["input"]["rels"]])
+        e = explain(f)
+        return bool(e) and all(v is not None for v in e.values()) and "D17b" in e.values()
     ctx.kf_predicates["D17b"] = kf_d17b
 
 
@@ -184,10 +305,24 @@ def generate(ctx):
     rng = ctx.rng
     ctx.check("save_load", D21_EXAMPLE)         # the recorded instance of the known finding
     ctx.check("save_load", D17B_EXAMPLE)        # zero-length note followed by a real note of the same pitch
+    ctx.check("save_load", D21_TOUCH_EXAMPLE)   # D21, touching notes, note-on listed before the note-off of the shared tick: fused
+    ctx.check("save_load", D21_TOUCH_FINE)      # the same notes with the note-off listed first: come back intact (must NOT fail)
     for i in range(ctx.n(120, 2500)):
         k = rng.choice([1, 2, 3])
         rels = []
         used = set()
+        # the NORMAL case of real files (audit 3, O10): every saved track starts with a time signature at tick 0 — the same one, or
+        # different ones; sometimes a key signature as well
+        start_sigs = None
+        if rng.random() < 0.35:
+            if rng.random() < 0.6:
+                one = rng.choice([(4, 4), (4, 4), (3, 4), (6, 8)])
+                start_sigs = [one] * k
+                ctx.count("every-track-starts-with-the-same-signature-at-0")
+            else:
+                start_sigs = [G.any_sig(rng) for _ in range(k)]
+                ctx.count("every-track-starts-with-its-own-signature-at-0")
+            start_keys = [rng.randrange(15) if rng.random() < 0.5 else None for _ in range(k)] if rng.random() < 0.5 else [None] * k
         for j in range(k):
             notes = G.gen_notes(rng, n_notes=rng.randint(0, 6), channels=(0,) if rng.random() < 0.75 else (0, 1, 2), max_tick=150, max_dur=50)
             extras = []
@@ -207,6 +342,41 @@ def generate(ctx):
                     extras.append(pm(TIMESIG, 0, t, num=n_, den=d_))
                 else:
                     extras.append(pm(KEYSIG, 0, t, key=rng.randrange(15)))
+            if start_sigs is not None:
+                extras = [e for e in extras if not (e[0] == TIMESIG and e[2] == 0) and not (e[0] == KEYSIG and e[2] == 0 and start_keys[j] is not None)]
+                extras.append(pm(TIMESIG, 0, 0, num=start_sigs[j][0], den=start_sigs[j][1]))
+                if start_keys[j] is not None:
+                    extras.append(pm(KEYSIG, 0, 0, key=start_keys[j]))
+            elif rng.random() < 0.08 and extras:
+                # two signatures of a kind on one tick inside ONE sequence
+                e0 = rng.choice(extras)
+                if e0[0] == TIMESIG:
+                    n_, d_ = G.any_sig(rng)
+                    extras.append(pm(TIMESIG, 0, e0[2], num=n_, den=d_))
+                else:
+                    extras.append(pm(KEYSIG, 0, e0[2], key=rng.randrange(15)))
+                ctx.count("two-signatures-of-a-kind-on-one-tick-in-one-sequence")
+            # events that write no MIDI message (program changes) or a channel message (control changes, the legal value 0 included),
+            # anywhere between the waits and the notes (audit 3, O5): whatever happens to them, the notes must keep their onsets
+            for _ in range(rng.choice([0, 0, 1, 2, 3])):
+                t = rng.randint(0, 160)
+                if notes and rng.random() < 0.5:
+                    n0 = rng.choice(notes)
+                    t = rng.choice([n0[2], n0[2] + n0[3], max(0, n0[2] - 1)])
+                ch = rng.choice(sorted({n[0] for n in notes}) or [0])
+                if rng.random() < 0.5:
+                    extras.append(pm(CC, ch, t, vel=rng.choice([0, 0, 127, rng.randrange(128)]), ctl=rng.choice([0, 1, 7, 64, 127])))
+                    ctx.count("control-change")
+                else:
+                    extras.append(pm(PC, ch, t, prog=rng.choice([0, 5, 127])))
+                    ctx.count("program-change")
+            if rng.random() < 0.06:
+                # a zero-length note (D17b's class), often of a pitch that has other notes
+                zp = rng.choice([n[1] for n in notes] + [61]) if notes else 61
+                zt = rng.choice([n[2] + n[3] for n in notes] + [n[2] for n in notes] + [rng.randint(0, 150)]) if notes else 0
+                if not any(x[1] == zp and x[2] < zt < x[2] + x[3] for x in notes):
+                    notes = notes + [(rng.choice(sorted({n[0] for n in notes}) or [0]), zp, zt, 0, 64)]
+                    ctx.count("zero-length-note-saved(D17b class)")
             a = G.notes_to_abs(notes, extras, cap=None)
             if rng.random() < 0.3:
                 a = G.shuffle_ties(rng, a)       # entered in another order (notes first, signatures later): same-tick messages not in canonical order
@@ -219,6 +389,26 @@ def generate(ctx):
         ctx.case(rels, k > 1 or bool(used))
         ctx.count("sequences:%d" % k)
         ctx.check("save_load", {"rels": rels})
+        if k == 1 and i % 2 == 0:
+            ctx.count("route:Sequence.save")
+            ctx.check("save_load", {"rels": rels, "route": "Sequence.save"})
+        if i % 4 == 1:
+            # the Composition routes, on the class where building bars keeps the notes (see composition_safe)
+            crels = []
+            for j in range(k):
+                cn = []
+                for _ in range(rng.randint(0, 5)):
+                    dur = rng.choice([12, 24, 36])
+                    bar0 = rng.randrange(3) * 96
+                    on = bar0 + rng.randrange(0, (96 - dur) // 12 + 1) * 12
+                    cand = (0, rng.choice([60, 62, 64, 21, 108]), on, dur, rng.choice([1, 64, 127, rng.randint(1, 127)]))
+                    if not any(x[1] == cand[1] and not (on + dur <= x[2] or x[2] + x[3] <= on) for x in cn):
+                        cn.append(cand)
+                ex = [pm(TIMESIG, 0, 0, num=4, den=4)] if j == 0 else []
+                crels.append(G.abs_to_rel(G.notes_to_abs(cn, ex, cap=None)))
+            for route in ("Composition.save", "Composition.from_midi_file"):
+                ctx.count("route:" + route)
+                ctx.check("save_load", {"rels": crels, "route": route})
         if i % 3 == 0:
             # Sequence objects with a past: saved once, then changed through public operations, then saved again
             resave = [[rng.choice([("transpose", rng.choice([1, 2, -1])), ("editRel", 1, rng.randint(1, 127)), ("pad", rng.choice([0, 300])),
